@@ -310,3 +310,29 @@ Proof.
     + apply andb_true_iff in E as [->%Nat.eqb_eq _]. unfold n2, sess_update. cbn [n_coff n_log set_reg]. rewrite K2, K1. by apply Hq.
     + by apply Hq.
 Qed.
+
+(** C02 / C14 read off the step: every registered session with a matching added subscription on
+    any destination node of the publisher — the publisher's own node or another one — whose
+    connection accepts writes is sent the message in that very step, under the publisher's topic
+    name with the mount point trimmed, payload intact. *)
+Corollary publish_step_reaches seen cl c k s p dup mid clk j u s' :
+  find_conn cl c = Some k → c_closed k = false → c_sid k = Some (ss_id s) →
+  alookup (ss_id s) (n_reg (getn cl (c_node k))) = Some s →
+  quiescent cl → healthy cl → p_retain p = false → (p_qos p = 0 ∨ p_qos p = 1) →
+  let i := c_node k in
+  let m := LMsg (prefix_mp (ss_mp s) (p_topic p)) (p_payload p) (p_qos p) false dup in
+  Forall (λ d, 1 ≤ d) (dests_of cl i m) →
+  (∀ j u, (j < nlen cl)%nat → u ∈ sub_by_pattern (n_d (getn cl j)) (l_topic m) → s_qos u = 0) →
+  (j < nlen cl)%nat → dest_here cl i m j = true →
+  u ∈ sub_by_pattern (n_d (getn cl j)) (l_topic m) → s_peer u = n_id (getn cl j) →
+  alookup (s_sid u) (n_reg (getn cl j)) = Some s' → existsb (String.eqb (ss_conn s')) (cl_bad cl) = false →
+  Out (ss_conn s') (OPublish (trim_mp (ss_mp s') (l_topic m)) (p_payload p) 0 false dup 0) ∈ (step seen cl (EPublish c p dup mid clk)).2.
+Proof.
+  intros Hk Hcl Hsid Hs Hq Hh Hret Hqos i m Hpos Hq0 Hj Hd Hu Hpeer Hs' Hbad.
+  destruct (publish_step_q0_exact seen cl c k s p dup mid clk Hk Hcl Hsid Hs Hq Hh Hret Hqos Hpos Hq0) as (stores & _ & E).
+  rewrite E. apply elem_of_app. right. apply elem_of_app. right. apply elem_of_app. right.
+  apply elem_of_list_In, in_flat_map. exists j. split; [apply in_seq; lia|]. fold i m. rewrite Hd.
+  apply in_flat_map. exists (s_sid u, s_qos u). split.
+  - unfold local_recips. apply in_map_iff. exists u. split; [done|]. apply filter_In. split; [by apply elem_of_list_In|]. by apply Z.eqb_eq.
+  - unfold q0_out. cbn [fst]. rewrite Hs'. unfold wout. rewrite Hbad. left. done.
+Qed.
